@@ -68,6 +68,15 @@ CHECKS.update({
                 design="4/C11, 2.6, 2.3", note=BASE_NOTE),
 })
 
+CHECKS.update({
+    "C15": dict(engine="serial", technique="TLC: SerializeRoundTrip (Denote(Serialize(p)) = p) on MPSerialize.tla over programs with every parameter kind; real to_string / from_source round trips in three construction modes validated by TLC (MPSerializeTrace.tla)",
+                text="TLC enumerates programs over a command with every parameter kind and value ids for strings (quotes, backslashes, delimiters, non-ASCII, empty, number-like, newlines) and numbers (big integers, decimals, exponent forms), checking the canonical serialisation denotes the program; each program is built from source, through add_command with raw values and with already-clean values, serialised by the real to_string, loaded back and compared (structure, cleaned values, results after run).",
+                design="4/C15, 2.6", note=BASE_NOTE + " Programs are over the verification library's Echo command (all parameter classes) and producers; inf/nan are outside the quantifier."),
+    "C16": dict(engine="eems2", technique="TLC: MPEems2.tla over the live name table and declarations (TargetsExist, ImageIsV3, ConvertIdempotent, ShapeKept); EEMS 2.0 files and their images loaded by the real loader and validated by TLC (MPEems2Trace.tla)",
+                text="The live EEMS_COMMANDS table and command declarations are exported; TLC reports names whose target does not exist and, for every other name, builds EEMS 2.0 files in every style (no result name / NewFieldName / OutFileName / explicit result, first or last among MPilot commands) with their image under Convert; each file and its image are rendered, loaded and run by the real loader and compared; TLC validates the loaded structure against Convert(v2).",
+                design="4/C16, 2.6", note=BASE_NOTE + " MPilot-style commands inside EEMS 2.0 files are generated without NewFieldName/OutFileName."),
+})
+
 NOT_YET = "check not built yet (build in progress; see DESIGN.md section 4b build order)"
 
 
@@ -108,6 +117,8 @@ def main():
              "kind_free_text": "TLC (spec/MPParamsTable.tla, MPParams.tla, MPParamsTrace.tla) + clean() driver"},
             {"name": "syntax", "path": "harness/syntax.py", "serves_properties": ["C10", "C11"],
              "kind_free_text": "TLC (spec/MPSyntaxDefs.tla, MPSyntax.tla, MPSyntaxTrace.tla, MPLex.tla, MPLexTrace.tla, MPParserObj.tla, MPParserObjTrace.tla) + renderer/concretiser + real parser"},
+            {"name": "serial", "path": "harness/serial.py", "serves_properties": ["C15"], "kind_free_text": "TLC (spec/MPSerialize.tla, MPSerializeTrace.tla) + to_string/from_source driver"},
+            {"name": "eems2", "path": "harness/eems2.py", "serves_properties": ["C16"], "kind_free_text": "TLC (spec/MPEems2.tla, MPEems2Trace.tla; MC_Eems2/MC_Decl generated) + loader driver"},
             {"name": "validate", "path": "harness/validate.py", "serves_properties": ["C12", "C13"],
              "kind_free_text": "TLC (spec/MPValidateDefs.tla, MPValidate.tla, MPValidateTrace.tla, MPCli.tla, MPCliTrace.tla; MC_Decl generated by harness/decl.py) + renderer/runner"},
         ],
